@@ -19,7 +19,7 @@ static char c_conn, c_ctx, c_pol, c_hash, c_rule, c_svc; static BusConnections c
 int in_max_completed, in_max_per_user; _Bool in_has_uid; unsigned long in_uid; int in_uid_count;
 /* ghost state */
 int g_uid_count;                         /* completed_by_user[in_uid] */
-struct { int hash_writes, unlink, append_link, remove_last, watches, expire, copy, policy, free_name, policy_unref, loginfo; _Bool copy_ok, policy_ok, loginfo_ok;
+struct { int free_link, hash_writes, unlink, append_link, remove_last, watches, expire, copy, policy, free_name, policy_unref, loginfo; _Bool copy_ok, policy_ok, loginfo_ok;
          int n_incomplete_at_watches; } G;
 static char name_copy[8];
 
@@ -37,14 +37,51 @@ dbus_bool_t _dbus_string_copy_data (const DBusString *s, char **out) { PRE (out 
 BusClientPolicy *bus_context_create_client_policy (BusContext *c, DBusConnection *conn, DBusError *e)
 { PRE (c == CTX && conn == CONN && (e == NULL || !ERR_SET (e)), "bus_context_create_client_policy"); G.policy++; G.policy_ok = nondet_bool (); if (!G.policy_ok) { stub_fail (e); return NULL; } return POL; }
 dbus_bool_t verif_stub_cache_peer_loginfo_string (BusConnectionData *d, DBusConnection *c) { PRE (d == &data && c == CONN, "cache_peer_loginfo_string"); G.loginfo++; G.loginfo_ok = nondet_bool (); return G.loginfo_ok; }
+#if VERIF_OP != 5
 void _dbus_list_unlink (DBusList **list, DBusList *link) { PRE (list == &conns.incomplete && link == &conn_link, "_dbus_list_unlink: out of the incomplete list"); G.unlink++; }
 void _dbus_list_append_link (DBusList **list, DBusList *link)
 { PRE ((list == &conns.completed && link == &conn_link && G.unlink == 1) || ((list == &data.match_rules || list == &data.services_owned) && link == &the_link), "_dbus_list_append_link"); G.append_link++; }
 dbus_bool_t _dbus_list_remove_last (DBusList **list, void *d) { PRE ((list == &data.match_rules && d == &c_rule) || (list == &data.services_owned && d == &c_svc), "_dbus_list_remove_last"); G.remove_last++; return TRUE; /* requires: element is in the list */ }
+#else
+void verif_free_link (DBusList *l) { G.free_link++; }
+#endif
 void bus_context_check_all_watches (BusContext *c) { PRE (c == CTX, "bus_context_check_all_watches"); G.watches++; G.n_incomplete_at_watches = conns.n_incomplete; }
 void verif_stub_bus_connections_expire_incomplete (BusConnections *c) { PRE (c == &conns, "bus_connections_expire_incomplete"); G.expire++; }
 void bus_client_policy_unref (BusClientPolicy *p) { PRE (p == POL, "bus_client_policy_unref"); G.policy_unref++; }
 void dbus_free (void *p) { if (p == name_copy) G.free_name++; }
+
+#if VERIF_OP == 4
+/* ---- bus_connection_disconnected: contracts of the neighbours ---- */
+int in_k; _Bool in_was_complete; static char c_mm, c_txn;
+struct { int mm_disc, remove_ok, remove_fail, txn_new, txn_exec, txn_cancel, dispatch_rm, rm_link_completed, rm_link_incomplete, drop_replies, set_data, unref, rm_txns, n_incomplete_at_watches2; } D;
+BusMatchmaker *bus_context_get_matchmaker (BusContext *c) { return (BusMatchmaker *) &c_mm; }
+void bus_matchmaker_disconnected (BusMatchmaker *m, DBusConnection *c) { PRE (c == CONN && m == (BusMatchmaker *) &c_mm, "bus_matchmaker_disconnected"); D.mm_disc++; }
+void *_dbus_list_get_last (DBusList **list) { PRE (list == &data.services_owned, "_dbus_list_get_last: the connection's owned names"); return data.n_services_owned > 0 ? (void *) &c_svc : NULL; }   /* I: counter == list length */
+BusTransaction *verif_stub_bus_transaction_new (BusContext *c) { PRE (c == CTX, "bus_transaction_new"); D.txn_new++; return (BusTransaction *) &c_txn; }   /* memory eventually available (the code waits otherwise) */
+dbus_bool_t bus_service_remove_owner (BusService *s, DBusConnection *c, BusTransaction *t, DBusError *e)
+{ PRE (s == (BusService *) &c_svc && c == CONN && t == (BusTransaction *) &c_txn && e != NULL && !ERR_SET (e) && D.txn_new == D.txn_exec + D.txn_cancel + 1, "bus_service_remove_owner: own name, fresh transaction, clear error");
+  if (D.remove_fail == 0 && nondet_bool ()) { D.remove_fail++; e->name = DBUS_ERROR_NO_MEMORY; e->message = some_string; return FALSE; }   /* at most one OOM: bound of this unit */
+  D.remove_ok++; data.n_services_owned -= 1; return TRUE; }            /* C04.remove_owner + C13.counters: the entry and the owned-name link are gone */
+void verif_stub_bus_transaction_cancel_and_free (BusTransaction *t) { D.txn_cancel++; }
+void verif_stub_bus_transaction_execute_and_free (BusTransaction *t) { PRE (D.remove_ok == D.txn_exec + 1, "bus_transaction_execute_and_free: after a successful removal"); D.txn_exec++; }
+void _dbus_wait_for_memory (void) { }
+void bus_dispatch_remove_connection (DBusConnection *c) { D.dispatch_rm++; }
+dbus_bool_t dbus_connection_set_watch_functions (DBusConnection *c, DBusAddWatchFunction a, DBusRemoveWatchFunction r, DBusWatchToggledFunction t, void *d, DBusFreeFunction f) { return TRUE; }
+dbus_bool_t dbus_connection_set_timeout_functions (DBusConnection *c, DBusAddTimeoutFunction a, DBusRemoveTimeoutFunction r, DBusTimeoutToggledFunction t, void *d, DBusFreeFunction f) { return TRUE; }
+void dbus_connection_set_unix_user_function (DBusConnection *c, DBusAllowUnixUserFunction fn, void *d, DBusFreeFunction f) { }
+void dbus_connection_set_windows_user_function (DBusConnection *c, DBusAllowWindowsUserFunction fn, void *d, DBusFreeFunction f) { }
+void dbus_connection_set_dispatch_status_function (DBusConnection *c, DBusDispatchStatusFunction fn, void *d, DBusFreeFunction f) { }
+void _dbus_connection_set_pending_fds_function (DBusConnection *c, DBusPendingFdsChangeFunction cb, void *d) { }
+void verif_stub_bus_connection_remove_transactions (DBusConnection *c) { D.rm_txns++; }
+BusContainers *bus_context_get_containers (BusContext *c) { return nondet_ptr (); }
+void bus_containers_remove_connection (BusContainers *s, DBusConnection *c) { }
+void _dbus_list_remove_link (DBusList **list, DBusList *link)
+{ PRE (link == &conn_link && (list == &conns.completed || list == &conns.incomplete), "_dbus_list_remove_link: this connection's link");
+  if (list == &conns.completed) D.rm_link_completed++; else D.rm_link_incomplete++; }
+void verif_stub_bus_connection_drop_pending_replies (BusConnections *cs, DBusConnection *c) { PRE (cs == &conns && c == CONN, "bus_connection_drop_pending_replies"); D.drop_replies++; }
+dbus_bool_t dbus_connection_set_data (DBusConnection *c, dbus_int32_t slot, void *d, DBusFreeFunction f) { PRE (c == CONN && d == NULL, "dbus_connection_set_data: clears the slot"); D.set_data++; return TRUE; }
+void dbus_connection_unref (DBusConnection *c) { D.unref++; }
+#endif
 
 static void setup (void)
 {
@@ -67,8 +104,8 @@ void harness (void)
   int over_total = c0 >= in_max_completed, over_user = in_has_uid && in_uid_count >= in_max_per_user;
   POST (IMP (over_total || over_user, !ret && err_is (&err, DBUS_ERROR_LIMITS_EXCEEDED)), "lim.post1 limit reached (>=) => refused with LimitsExceeded");
   POST (IMP (!over_total && !over_user, ret && !ERR_SET (&err)), "lim.post2 below both limits => admitted, no error");
-  POST (IMP (over_total, verif_streq (lname, "max_completed_connections") && lval == in_max_completed), "lim.post3 names the total limit");
-  POST (IMP (!over_total && over_user, verif_streq (lname, "max_connections_per_user") && lval == in_max_per_user), "lim.post4 names the per-user limit");
+  POST (IMP (over_total, lname != NULL && verif_streq (lname, "max_completed_connections") && lval == in_max_completed), "lim.post3 names the total limit");
+  POST (IMP (!over_total && over_user, lname != NULL && verif_streq (lname, "max_connections_per_user") && lval == in_max_per_user), "lim.post4 names the per-user limit");
   POST (conns.n_completed == c0 && conns.n_incomplete == i0 && conns.completed == cl0 && conns.incomplete == il0 && g_uid_count == in_uid_count && G.hash_writes == 0, "lim.post5 the check mutates nothing");
   if (ret) REACH ("admitted"); if (over_total) REACH ("total-limit"); if (!over_total && over_user) REACH ("user-limit");
 #elif VERIF_OP == 2
@@ -84,6 +121,48 @@ void harness (void)
   POST (IMP (!ret, g_uid_count == in_uid_count), "cmp.post6 failure: this user's count unchanged");
   POST (IMP (!ret, data.name == NULL && data.policy == NULL && G.free_name == G.copy_ok && G.policy_unref <= 1), "cmp.post7 failure: still inactive, name released");
   if (ret && in_has_uid) REACH ("completed-uid"); if (ret && !in_has_uid) REACH ("completed-nouid"); if (!ret && G.loginfo == 1) REACH ("loginfo-oom"); if (!ret && G.policy == 1 && !G.policy_ok) REACH ("policy-failed"); if (!ret && !G.copy_ok) REACH ("name-oom");
+#elif VERIF_OP == 5
+  /* I: n_match_rules == length(match_rules), n_services_owned == length(services_owned) — kept by each of the four
+   * operations, on the REAL dbus-list.c, lists of <= 3 elements built by the harness (LIST_OK). */
+  static DBusList pl[3]; static char elem[3]; DBusList *head = NULL; int i, n = nondet_int (), which = nondet_int (), pick = nondet_int ();
+  __CPROVER_assume (n >= 0 && n <= 3 && which >= 0 && which < 4 && pick >= 0 && pick < 3);
+  for (i = 0; i < 3; i++) if (i < n)
+    { pl[i].data = &elem[i];
+      if (head == NULL) { pl[i].next = pl[i].prev = &pl[i]; head = &pl[i]; }
+      else { pl[i].next = head; pl[i].prev = head->prev; head->prev->next = &pl[i]; head->prev = &pl[i]; } }
+  DBusList **lst = (which < 2) ? &data.match_rules : &data.services_owned; int *cnt = (which < 2) ? &data.n_match_rules : &data.n_services_owned;
+  data.match_rules = NULL; data.services_owned = NULL; data.n_match_rules = 0; data.n_services_owned = 0; *lst = head; *cnt = n;
+  the_link.data = &c_rule; the_link.next = the_link.prev = NULL;
+  if (which == 0) bus_connection_add_match_rule_link (CONN, &the_link);
+  else if (which == 2) bus_connection_add_owned_service_link (CONN, &the_link);
+  else { __CPROVER_assume (pick < n);                                   /* requires: the element is in the list */
+         if (which == 1) bus_connection_remove_match_rule (CONN, (BusMatchRule *) &elem[pick]); else bus_connection_remove_owned_service (CONN, (BusService *) &elem[pick]); }
+  int len = 0, has_pick = 0, has_new = 0; DBusList *l = *lst;
+  for (i = 0; i < 5; i++) if (l != NULL) { len++; if (l->data == &elem[pick]) has_pick = 1; if (l == &the_link) has_new = 1; l = (l->next == *lst) ? NULL : l->next; }
+  POST (*cnt == len, "inv.len counter == list length after the operation");
+  POST (IMP (which == 0 || which == 2, len == n + 1 && has_new), "inv.add the new link is in the list, length +1");
+  POST (IMP (which == 1 || which == 3, len == n - 1 && !has_pick && G.free_link == 1), "inv.remove the element is gone, length -1, its link released");
+  POST ((which < 2 ? data.n_services_owned : data.n_match_rules) == 0, "inv.frame the other counter untouched");
+  if (which == 0 && n == 3) REACH ("add-to-3"); if (which == 1 && n == 1) REACH ("remove-last"); if (which == 3 && n == 3) REACH ("remove-from-3"); if (which == 2 && n == 0) REACH ("add-to-empty");
+#elif VERIF_OP == 4
+  in_k = nondet_int (); in_was_complete = nondet_bool ();
+  __CPROVER_assume (in_k >= 0 && in_k <= 3 && data.n_match_rules >= 0);
+  data.n_services_owned = in_k;                                            /* B: at most 3 owned names */
+  data.name = in_was_complete ? name_copy : NULL; data.policy = in_was_complete ? POL : NULL;
+  data.pending_unix_fds_timeout = NULL; data.link_in_monitors = NULL;
+  /* I: this connection is counted where its link is; a completed connection of a unix user is counted for that user */
+  __CPROVER_assume (in_was_complete ? (c0 >= 1 && IMP (in_has_uid, in_uid_count >= 1)) : i0 >= 1);
+  int rules0 = data.n_match_rules;
+  bus_connection_disconnected (CONN);
+  POST (D.remove_ok == in_k && D.txn_exec == in_k && D.txn_cancel == D.remove_fail && data.n_services_owned == 0, "disc.post1 every owned name released, one executed transaction each; a failed attempt is cancelled and retried");
+  POST (D.mm_disc == (rules0 > 0 ? 1 : 0), "disc.post2 match rules dropped iff the connection had any");
+  POST (IMP (in_was_complete, conns.n_completed == c0 - 1 && conns.n_incomplete == i0 && D.rm_link_completed == 1 && D.rm_link_incomplete == 0), "disc.post3 completed connection: n_completed -1, unlinked from the completed list");
+  POST (IMP (in_was_complete, g_uid_count == in_uid_count - (in_has_uid ? 1 : 0)), "disc.post4 completed connection: this user's count -1 iff the peer has a unix user");
+  POST (IMP (!in_was_complete, conns.n_incomplete == i0 - 1 && conns.n_completed == c0 && D.rm_link_incomplete == 1 && D.rm_link_completed == 0 && g_uid_count == in_uid_count), "disc.post5 incomplete connection: n_incomplete -1 only");
+  POST (IMP (!in_was_complete, G.watches == 1 && G.n_incomplete_at_watches == i0 - 1) && IMP (in_was_complete, G.watches == 0), "disc.post6 accept gate re-evaluated after an incomplete connection left");
+  POST (conns.n_completed >= 0 && conns.n_incomplete >= 0 && g_uid_count >= 0, "disc.post7 no counter negative");
+  POST (D.drop_replies == 1 && D.set_data == 1 && D.unref == 1 && data.link_in_connection_list == NULL, "disc.post8 pending replies dropped, data slot cleared, reference released - once");
+  if (in_was_complete && in_k == 3) REACH ("complete-3-names"); if (!in_was_complete) REACH ("incomplete"); if (D.remove_fail == 1) REACH ("oom-retried"); if (in_was_complete && in_has_uid) REACH ("uid-decremented");
 #else
   int which = nondet_int (); int m0 = data.n_match_rules, s0 = data.n_services_owned;
   __CPROVER_assume (which >= 0 && which < 4 && m0 >= 0 && s0 >= 0);
